@@ -847,7 +847,8 @@ std::vector<Scenario> AllScenarios(bool thorough) {
     add({Cell('s', res)}, {}, {Co({Op("single", {0}, -1, false)})});
     add({Cell('s', res, "pre")}, {}, {Co({Op("single", {0}, -1, true)})});
   }
-  // -- D3: a SharedFuture with another observer (a subscriber, or a second coroutine)
+  // -- a SharedFuture with another observer (a subscriber, or a second coroutine): since /repo c9c07bc (D3) the second awaiter
+  //    suspends; before, await_ready = !Empty() made it continue before the fulfilment
   add({Cell('s', "val:2", "fib", true)}, {}, {Co({Op("single", {0}, -1, false)})});
   add({Cell('s', "val:2", "fib", true)}, {}, {Co({Op("single", {0}, -1, true)})});
   add({Cell('s', "val:2", "fib", true)}, {"run"}, {Co({Op("resched", {}, 1), Op("sticky", {0})})});
@@ -898,6 +899,8 @@ std::vector<Scenario> AllScenarios(bool thorough) {
   add({Cell('t', "exc")}, {}, {Co({Op("task", {0}, -1, false)})});
   add({Cell('T', "val:9")}, {"run"}, {Co({Op("task", {0}, -1, true), Op("current", {})})});
   // -- D12: coroutines resumed by one SharedFuture exchange executors through the shared core
+  add({Cell('s', "val:2")}, {"run", "run"},
+      {Co({Op("resched", {}, 1), Op("single", {0}), Op("current", {})}), Co({Op("resched", {}, 2), Op("single", {0}), Op("current", {})})});
   add({Cell('s', "val:2"), Cell('u', "val:1", "pre"), Cell('u', "val:1", "pre")}, {"run", "run"},
       {Co({Op("resched", {}, 1), Op("multi", {0, 1}), Op("current", {})}), Co({Op("resched", {}, 2), Op("multi", {0, 2}), Op("current", {})})});
   // -- two coroutines, sequences
